@@ -132,9 +132,14 @@ def cache_field(lib, adt_suffix):
     return 'cached'
 
 
-def is_unset_value(rhs):
+def is_unset_value(rhs, depth=0):
     r = strip_refs(rhs)
-    return is_const(r, 0) or (r[0] == 'agg' and r[1].endswith('Option::None'))
+    if is_const(r, 0) or (r[0] == 'agg' and r[1].endswith('Option::None')):
+        return True
+    if r[0] == 'call' and short(r[1]) == 'default' and not r[2]:
+        return True         # Default::default() of the cache type: 0 / None
+    # a one-field wrapper around the unset value (`SampleCache(None)`)
+    return depth < 2 and r[0] == 'agg' and (r[1].startswith('adt:') or r[1] == 'tuple') and len(r[2]) == 1 and is_unset_value(r[2][0], depth + 1)
 
 
 def resets(ctx, pid):
@@ -143,12 +148,17 @@ def resets(ctx, pid):
     cf_info = cache_field(ctx.lib, 'CachedInfoset')
     f = ctx.fn('lib', 'solve::data::SampledChance::reset', rule)
     if f is not None:
-        ok = any(not f.conds(bi) and pl[0] == 'field' and pl[2] == cf_chance and is_unset_value(rhs) for bi, st, pl, rhs in q.stores(f))
+        def on_field(pl_, name_):
+            # the cache field itself, or the inside of a one-field wrapper around it (`self.cache.0 = None`)
+            return pl_[0] == 'field' and (pl_[2] == name_ or (str(pl_[2]).isdigit() and strip_refs(pl_[1])[0] == 'field' and strip_refs(pl_[1])[2] == name_))
+        ok = any(not f.conds(bi) and on_field(pl, cf_chance) and is_unset_value(rhs) for bi, st, pl, rhs in q.stores(f))
         ctx.verdict(ok, rule, rule + ':SampledChance::reset', 'reset() assigns cached = 0 unconditionally', f.where(0), 'found: %s' % ok, breaks='a chance infoset keeps last pass\'s outcome forever')
+    def on_field(pl_, name_):
+        return pl_[0] == 'field' and (pl_[2] == name_ or (str(pl_[2]).isdigit() and strip_refs(pl_[1])[0] == 'field' and strip_refs(pl_[1])[2] == name_))
     f = ctx.fn('lib', '<solve::external::CachedInfoset as solve::external::ActiveInfo>::advance', rule)
     if f is not None:
         rets = [bi for bi in f.reach if f.blocks[bi]['term']['t'] == 'return']
-        ok = any(pl[0] == 'field' and pl[2] == cf_info and is_unset_value(rhs) and all(f.dominates(bi, r) for r in rets) for bi, st, pl, rhs in q.stores(f))
+        ok = any(on_field(pl, cf_info) and is_unset_value(rhs) and all(f.dominates(bi, r) for r in rets) for bi, st, pl, rhs in q.stores(f))
         ctx.verdict(ok, rule, rule + ':CachedInfoset::advance', 'advance() assigns cached = 0 on every path', f.where(0), 'found: %s' % ok, breaks='a player infoset keeps the action sampled in an earlier pass')
     # the advance() of every sampled chance wrapper reaches reset
     lib = ctx.lib
@@ -315,6 +325,10 @@ def pass_structure(ctx, pid):
         want_passes = PASSES.get(name.split('::')[-1])
         if want_passes is not None and passes != want_passes:
             ok = False
+        if not ok and not any(x.startswith('T:') for x in seq):
+            # no traversal recognised in this driver at all (its loop body lives in other functions now): nothing to order
+            ctx.anchor_lost(rule, '%s: the traversals of a pass' % name, 'events recognised: %s' % (' '.join(seq) or 'none'))
+            continue
         ctx.verdict(ok, rule, '%s:%s' % (rule, name),
                     'in every pass all traversals (frontier, tasks, root traversal) come first and are followed by a reset of the whole chance table before the next pass; no reset separates traversals of one pass',
                     f.where(ev[0][0]) if ev else f.where(0), 'event sequence: %s (%d pass(es), expected %s)' % (' '.join(seq), passes, want_passes),
@@ -330,7 +344,10 @@ def pass_structure(ctx, pid):
                 same = len(tabs) == 1 and active is not None and tabs[0] is not None and (tabs[0] == active or facts.show(tabs[0]) == facts.show(active))
                 detail.append('%s -> advance(%s)' % (facts.show(active)[-40:] if active else '?', facts.show(tabs[0])[-40:] if tabs and tabs[0] else 'none'))
                 good &= same
-            ctx.verdict(good, rule, '%s:%s:player-advance' % (rule, name), 'each pass ends by advancing the whole slice of the player that pass updated (its active table), which resets that player\'s cached actions',
+            if not good and all(d_.startswith('? ->') for d_ in detail):
+                ctx.anchor_lost(rule, '%s: the table each pass updates' % name, '; '.join(detail))
+            else:
+              ctx.verdict(good, rule, '%s:%s:player-advance' % (rule, name), 'each pass ends by advancing the whole slice of the player that pass updated (its active table), which resets that player\'s cached actions',
                         f.where(ev[0][0]) if ev else '', '; '.join(detail), breaks='a player\'s cached action survives into the next pass in which that player is sampled, or the wrong player is advanced')
 
 
@@ -402,7 +419,24 @@ def lock_kinds(ctx, pid):
     for f, bi, kind, t in sites:
         ctx.touch(f)
         tr = f.j.get('impl_trait', '')
-        if kind == 'try_lock':
+        if kind == 'try_lock' and not tr.endswith('ActiveRecurse') and not any(g_.j.get('impl_trait', '').endswith('ActiveRecurse') for g_ in lib.fns.values()):
+            # the per-role wrapper traits are gone (one closure-taking wrapper instead): the non-blocking acquisition is
+            # judged by who calls it — in recurse_regret only on elements of the updating player's table (parameter 3)
+            rr = lib.one('solve::external::recurse_regret')
+            uses = []
+            if rr is not None:
+                for g_ in [rr] + lib.closures_of(rr):
+                    for bj, tj, ej in q.calls_named(g_, short(f.name)):
+                        recv = q.resolve_captures(lib, g_, ej[2][0]) if g_.is_closure else ej[2][0]
+                        ps = sorted({x[1] for x in facts.walk(recv) if x[0] == 'param' and '[' in rr.locals[x[1]]['ty']})
+                        uses.append((g_.where(bj), ps))
+            if not uses or any(len(ps) != 1 for _, ps in uses):
+                ctx.anchor_lost(rule, 'try_lock wrapper %s: its uses in recurse_regret' % short(f.name), 'uses: %s' % uses)
+            else:
+                bad_ = [w for w, ps in uses if ps != [3]]
+                ctx.verdict(not bad_, rule, '%s:try_lock:%s' % (rule, q.top(f.name)), 'the non-blocking try_lock is used only for the updating player\'s infosets, whose visit is unique', f.where(bi),
+                            '%d uses of %s in recurse_regret; on another table than the updating player\'s: %s' % (len(uses), short(f.name), bad_), breaks='a second worker meeting a sampled-player or chance infoset fails instead of waiting')
+        elif kind == 'try_lock':
             ok = tr.endswith('ActiveRecurse')
             ctx.verdict(ok, rule, '%s:try_lock:%s' % (rule, q.top(f.name)), 'the non-blocking try_lock is used only for the updating player\'s infosets (ActiveRecurse), whose visit is unique', f.where(bi), 'in impl of %s' % (tr or 'no trait'),
                         breaks='a second worker meeting a sampled-player or chance infoset fails instead of waiting')
